@@ -101,6 +101,8 @@ int main(int argc, char** argv) {
 		  printf("fmin_fmax_d"); pd(glm::fmin(xd, yd)); pd(glm::fmax(xd, yd)); pd(glm::fmin(xd, std::sqrt(-pd_))); pd(glm::fmax(std::sqrt(-pd_), yd)); printf("\n");
 		  printf("log2_f"); pf(glm::log2(pf_)); pv(glm::log2(glm::vec2(pf_, pf_ * 37.0f))); printf("\n");
 		  printf("log2_d"); pd(glm::log2(pd_)); pv(glm::log2(glm::dvec2(pd_, pd_ * 37.0))); printf("\n");
+		  printf("fma_f"); pf(glm::fma(xf, yf, pf_)); pv(glm::fma(glm::vec2(xf, yf), glm::vec2(pf_, xf), glm::vec2(yf, pf_))); printf("\n");
+		  printf("fma_d"); pd(glm::fma(xd, yd, pd_)); printf("\n");
 		  printf("exp2_f"); pf(glm::exp2(xf)); pv(glm::exp2(glm::vec2(yf, pf_))); printf("\n");
 		  printf("exp2_d"); pd(glm::exp2(xd)); printf("\n");
 		  printf("asinh_f"); pf(glm::asinh(xf)); pv(glm::asinh(glm::vec2(yf, pf_))); printf("\n");
